@@ -59,6 +59,8 @@ pub enum Fault {
     MismatchedEndTag(u8),
     SelfClosingWeightData(u8),
     BadUtf8EntityInName(u8),
+    /// arbitrary (long, non-ASCII) text where the weight should be
+    ArbitraryWeightText(u8, String),
 }
 
 #[derive(Clone, Debug, PartialEq, Serialize, Deserialize)]
@@ -281,7 +283,7 @@ pub fn write_doc(d: &DocAst, fault: Option<&Fault>) -> String {
                 w.s.push_str("<edge");
                 w.attrs(a);
                 let wfault = match fault {
-                    Some(Fault::NonNumericWeight(k, _)) | Some(Fault::PaddedWeight(k)) | Some(Fault::UnknownEntityInWeight(k)) | Some(Fault::EmptyWeightData(k)) | Some(Fault::CommentBeforeWeightText(k)) | Some(Fault::CdataWeight(k)) | Some(Fault::SelfClosingWeightData(k)) if hit(k) => fault,
+                    Some(Fault::ArbitraryWeightText(k, _)) | Some(Fault::NonNumericWeight(k, _)) | Some(Fault::PaddedWeight(k)) | Some(Fault::UnknownEntityInWeight(k)) | Some(Fault::EmptyWeightData(k)) | Some(Fault::CommentBeforeWeightText(k)) | Some(Fault::CdataWeight(k)) | Some(Fault::SelfClosingWeightData(k)) if hit(k) => fault,
                     _ => None,
                 };
                 if weight.is_some() || *open || !data.is_empty() || wfault.is_some() {
@@ -290,6 +292,7 @@ pub fn write_doc(d: &DocAst, fault: Option<&Fault>) -> String {
                     let wt = weight.map(|(k, st)| fmt_weight(k, st)).unwrap_or_else(|| "1.5".to_string());
                     match wfault {
                         Some(Fault::NonNumericWeight(_, which)) => w.s.push_str(&format!("<data key=\"{}\">{}</data>", key, ["abc", "1,5", "1.5kg", "--1", "0x10", "1e", ".", "1_000", "١٢٣"][*which as usize % 9])),
+                        Some(Fault::ArbitraryWeightText(_, t)) => w.s.push_str(&format!("<data key=\"{}\">{}</data>", key, esc(t, '"'))),
                         Some(Fault::PaddedWeight(_)) => w.s.push_str(&format!("<data key=\"{}\"> {}\n</data>", key, wt)),
                         Some(Fault::UnknownEntityInWeight(_)) => w.s.push_str(&format!("<data key=\"{}\">&half;</data>", key)),
                         Some(Fault::EmptyWeightData(_)) => w.s.push_str(&format!("<data key=\"{}\"></data>", key)),
@@ -444,6 +447,11 @@ pub fn fault() -> impl Strategy<Value = Fault> {
         any::<u8>().prop_map(Fault::MismatchedEndTag),
         any::<u8>().prop_map(Fault::SelfClosingWeightData),
         any::<u8>().prop_map(Fault::BadUtf8EntityInName),
+        (any::<u8>(), prop_oneof![
+            "\\PC{0,90}",
+            "[a-zé中\u{1F600} ]{30,90}",
+            "[0-9.eE+-]{1,40}",
+        ]).prop_map(|(k, t)| Fault::ArbitraryWeightText(k, t)),
     ]
 }
 
@@ -457,7 +465,7 @@ pub fn fault_applies(d: &DocAst, f: &Fault) -> bool {
             let n = d.items.iter().filter(|i| matches!(i, Item::Node { .. })).count();
             n > 0 && d.items.iter().filter(|i| matches!(i, Item::Node { .. })).nth(*k as usize % n).map_or(false, |i| matches!(i, Item::Node { open: true, .. }))
         }
-        Fault::EdgeWithoutSource(_) | Fault::EdgeWithoutTarget(_) | Fault::NonNumericWeight(..) | Fault::PaddedWeight(_) | Fault::UnknownEntityInWeight(_) | Fault::EmptyWeightData(_) | Fault::CommentBeforeWeightText(_) | Fault::CdataWeight(_) | Fault::SelfClosingWeightData(_) => has_edge,
+        Fault::EdgeWithoutSource(_) | Fault::EdgeWithoutTarget(_) | Fault::ArbitraryWeightText(..) | Fault::NonNumericWeight(..) | Fault::PaddedWeight(_) | Fault::UnknownEntityInWeight(_) | Fault::EmptyWeightData(_) | Fault::CommentBeforeWeightText(_) | Fault::CdataWeight(_) | Fault::SelfClosingWeightData(_) => has_edge,
         Fault::KeyWithoutFor | Fault::KeyWithoutId => d.declare_weight_key,
         _ => true,
     }
